@@ -128,8 +128,11 @@ func runC10(c *Ctx) {
 		nSeq = 400
 	}
 	long := strings.Repeat("L", 300)
-	keys := append(append([]string{}, c10HostileKeys...), long, "d/"+long, long+"/x")
-	c.R.Rule = fmt.Sprintf("%d sequences per backend instance over buckets {bk1,bk2,bk3} with related contents (bk2/secret, bk2/k, bk1/k, …) and %d hostile keys ('.', '..', 'a/../b', '../bk2/k', empty segments, leading dots, backslashes, percent-encoded dots, 300-byte segments, names equal to backend internals (_meta, bucket/x, metadata, buckets, .modtime-resolution), keys that are path prefixes of others); deterministic stages: buckets whose names are string prefixes of each other (pre, prefix, pre-fix) around a delete and a force delete of the shortest, and every kind of listing addressed to a name of the backend's own storage ('.', '..', _meta, metadata, buckets, bucket); every operation kind (put, get, head, delete, multi-delete, copy, list, bucket create/delete incl. internal names) is framed by a whole-store snapshot (all buckets, all keys, all bodies and ETags; on real-directory instances also the file tree): nothing outside the addressed (bucket,key) set may change, appear, disappear or become unlistable; mem/bolt: every answer is also compared with the Lean model (keys are opaque); fs: a refusal is allowed; non-trivial = distinct (backend, operation, key)", nSeq, len(keys))
+	// 240 bytes: a file name the file system takes, but too long once the fs backends append their
+	// 33-byte suffix to it for the metadata file
+	mid := strings.Repeat("M", 240)
+	keys := append(append([]string{}, c10HostileKeys...), long, "d/"+long, long+"/x", mid, "d/"+mid)
+	c.R.Rule = fmt.Sprintf("%d sequences per backend instance over buckets {bk1,bk2,bk3} with related contents (bk2/secret, bk2/k, bk1/k, …) and %d hostile keys ('.', '..', 'a/../b', '../bk2/k', empty segments, leading dots, backslashes, percent-encoded dots, 300-byte and 240-byte segments, names equal to backend internals (_meta, bucket/x, metadata, buckets, .modtime-resolution), keys that are path prefixes of others); deterministic stages: buckets whose names are string prefixes of each other (pre, prefix, pre-fix) around a delete and a force delete of the shortest, and every kind of listing addressed to a name of the backend's own storage ('.', '..', _meta, metadata, buckets, bucket); every operation kind (put, get, head, delete, multi-delete, copy, list, bucket create/delete incl. internal names) is framed by a whole-store snapshot (all buckets, all keys, all bodies and ETags; on real-directory instances also the file tree): nothing outside the addressed (bucket,key) set may change, appear, disappear or become unlistable; mem/bolt: every answer is also compared with the Lean model (keys are opaque); fs: a refusal is allowed; non-trivial = distinct (backend, operation, key)", nSeq, len(keys))
 	for _, kind := range c.kinds(impl.AllKinds) {
 		for s := 0; s < nSeq; s++ {
 			c10Sequence(c, kind, keys, s)
